@@ -23,7 +23,17 @@ expansions differ exactly at the `if _sync {A} else {B}` sites. The theorems:
 * `settings_projection_safe` + `sign_claim_settings_disjoint` — the one reviewed site whose
   arms pass different *values* (`adjusted_settings` vs `settings` into `cose_sign`): the callee
   reads only fields in which the two do not differ.
-* `all_signatures_flavoured_only`, `inventory_complete`.
+* `all_signatures_flavoured_only`, `inventory_complete` (the inventory of attributed functions
+  equals an independent raw-text count; every site belongs to a listed function).
+* `required_pairs_generic` — the operations the statement names are macro-generated pairs;
+  `hand_pairs_reviewed`, `cross_scope_reviewed`, `async_orphans_reviewed` — every hand-written
+  `fn X_async` of the source is accounted for (token-twin bodies re-decided by the kernel, or
+  a differential of the harness named by the entry); `all_async_callees_known` — every
+  `_async` callee of an async arm is one of those or a generic function.
+* `all_async_arms_await_balanced` — no async arm (and no hand-written twin body) creates a future
+  without awaiting it on the spot (`unawaited_future_is_token_twin`: the hole it closes).
+* `verify_cose_flavours_agree` + `verify_cose_matches_table` — `twins_equal` instantiated with
+  a real SDK function whose program is tied to its rows of the regenerated table.
 -/
 namespace C2pa.C40
 
@@ -139,12 +149,170 @@ theorem reviewed_all_used :
       r.file == s.file && r.fn == s.fn && r.idx == s.idx && !s.isTwin))) = true := by
   decide +kernel
 
-/-- Every `_sync` token of sdk/src is one of the parsed sites; no `_async` conditions exist
-(the translator fails closed on them). -/
+/-- Every site belongs to a function of the inventory. -/
+theorem sites_in_inventory :
+    Gen.siteChunks.all (fun ch => ch.all (fun s =>
+      Gen.functions.any (fun f => f.1 == s.file && f.2.1 == s.fn))) = true := by
+  decide +kernel
+
+/-- The operations the property statement names (and the internal pairs they are made of) are
+**macro-generated** pairs of non-test code. Removing `#[async_generic]` from one of them and
+writing two bodies by hand fails this (and the hand-written pair must then pass
+`hand_pairs_reviewed`). -/
+theorem required_pairs_generic : requiredPairs.all (isGeneric Gen.functions) = true := by
+  decide +kernel
+
+/-- Every `_sync` token of sdk/src is one of the parsed sites (no `_async` conditions exist: the
+translator fails closed on them); the list of attributed functions found by the lexer-based
+scan has as many entries as there are `#[async_generic` attribute lines in the raw text
+(independent scan; the harness repeats it a third time in Rust: request `inv`); every site lies
+in a listed function; every required pair is present. -/
 theorem inventory_complete :
     (Gen.siteChunks.map List.length).sum = Gen.syncTokenCount ∧ 0 < Gen.syncTokenCount ∧
-      0 < Gen.functionCount := by
+      Gen.functions.length = Gen.functionCount ∧ Gen.functionCount = Gen.attrScanCount ∧
+      requiredPairs.length ≤ Gen.functionCount ∧
+      requiredPairs.all (isGeneric Gen.functions) = true ∧
+      Gen.sites.all (fun s => Gen.functions.any (fun f => f.1 == s.file && f.2.1 == s.fn)) = true := by
+  refine ⟨by decide +kernel, by decide +kernel, by decide +kernel, by decide +kernel,
+    by decide +kernel, required_pairs_generic, ?_⟩
+  have h := sites_in_inventory
+  simp only [List.all_eq_true] at h ⊢
+  intro s hs
+  obtain ⟨ch, hch, hsch⟩ := List.mem_flatten.1 hs
+  exact h ch hch s hsch
+
+/-! ### Hand-written pairs -/
+
+/-- **Every hand-written `fn X_async` with a sibling `fn X`** (non-test code) is a reviewed
+entry and satisfies the relation of its kind, re-decided by the kernel on the regenerated
+bodies: token-twin and await-balanced bodies (`X509SignatureVerifier`, `BuiltInSignatureVerifier`,
+`IcaSignatureVerifier::check_signature(_async)`, `did_web::resolve(_async)`), a bodiless trait
+declaration, a plain `fn` accessor of the asynchronous slot, or a pair with different bodies
+that a named harness differential compares (`Ingredient::from_stream(_async)`). A new
+hand-written pair, or an edit that makes two twin bodies diverge, fails this. -/
+theorem hand_pairs_reviewed : Gen.handPairs.all (fun p => p.covered reviewedHand) = true := by
   decide +kernel
+
+theorem reviewed_hand_all_used :
+    reviewedHand.all (fun r => Gen.handPairs.any (fun p =>
+      !p.test && r.file == p.file && r.fn == p.fn && r.idx == p.idx)) = true := by
+  decide +kernel
+
+/-- `fn X_async` / `fn X` in different scopes of one file are the `SyncHttpResolver` /
+`AsyncHttpResolver` method pairs only. -/
+theorem cross_scope_reviewed :
+    Gen.crossScope.all (fun c => c.2.2 || reviewedCross.contains (c.1, c.2.1)) = true := by
+  decide +kernel
+
+/-- `fn X_async` without any `fn X` (non-test code) are the three reviewed deprecated
+`Ingredient` constructors. -/
+theorem async_orphans_reviewed :
+    Gen.asyncOrphans.all (fun c => c.2.2 || reviewedOrphans.any (fun r => r.1 == c.1 && r.2.1 == c.2.1)) = true := by
+  decide +kernel
+
+/-- a callee name is accounted for: a generic function, a hand-written pair, a trait pair or a
+reviewed orphan -/
+def knownCallee (c : String) : Bool :=
+  Gen.functions.any (fun f => f.2.1 == c) || Gen.handPairs.any (fun p => p.fn == c && !p.test) ||
+    Gen.crossScope.any (fun x => x.2.1 == c && !x.2.2) || Gen.asyncOrphans.any (fun x => x.2.1 == c && !x.2.2)
+
+theorem chunks_callees_known :
+    Gen.siteChunks.all (fun ch => ch.all (fun s => (asyncCallees s.asyncArm).all knownCallee)) = true := by
+  decide +kernel
+
+/-- **The callee pairs are enumerated**: every `_async` function an async arm (or a hand-written
+twin body) calls is a generic function (its own sites are in the table), a reviewed hand-written
+pair, or a method of the resolver trait pair. There is no implicit `LeafAgree` leaf with an
+`_async` name. -/
+theorem all_async_callees_known :
+    Gen.sites.all (fun s => (asyncCallees s.asyncArm).all knownCallee) = true ∧
+    Gen.handPairs.all (fun p => (asyncCallees p.asyncBody).all knownCallee) = true := by
+  refine ⟨?_, by decide +kernel⟩
+  have h := chunks_callees_known
+  simp only [List.all_eq_true] at h ⊢
+  intro s hs
+  obtain ⟨ch, hch, hsch⟩ := List.mem_flatten.1 hs
+  exact h ch hch s hsch
+
+/-! ### Awaited futures -/
+
+theorem chunks_await_balanced :
+    Gen.siteChunks.all (fun ch => ch.all (fun s => awaitBalanced s.asyncArm)) = true := by
+  decide +kernel
+
+/-- **No async arm creates a future without awaiting it**: in every async arm of the current
+source every call of an `_async` function (after removing `Box::pin( … )` wrappers) and every call
+of a same-named `async` trait method (`flavouredMethods`) is directly followed by `.await`, and no
+`async` block occurs. Together with `all_sites_twins_or_listed` an arm that normalises to the
+sync arm really runs the calls it names. -/
+theorem all_async_arms_await_balanced :
+    Gen.sites.all (fun s => awaitBalanced s.asyncArm) = true := by
+  have h := chunks_await_balanced
+  simp only [List.all_eq_true] at h ⊢
+  intro s hs
+  obtain ⟨ch, hch, hsch⟩ := List.mem_flatten.1 hs
+  exact h ch hch s hsch
+
+/-- The hole `awaitBalanced` closes: arms that `related .twin` accepts although the future is
+never driven — a missing `.await`, an un-awaited `Box::pin(..)`, an `async` block that is dropped,
+and a same-named trait method without `.await`. -/
+theorem unawaited_future_is_token_twin :
+    (related .twin (["log", "(", "x", ")", ";"].map classify) (["log_async", "(", "x", ")", ";"].map classify) = true ∧
+      awaitBalanced (["log_async", "(", "x", ")", ";"].map classify) = false) ∧
+    (related .twin (["f", "(", "x", ")", ";"].map classify)
+        (["Box", ":", ":", "pin", "(", "f_async", "(", "x", ")", ")", ";"].map classify) = true ∧
+      awaitBalanced (["Box", ":", ":", "pin", "(", "f_async", "(", "x", ")", ")", ";"].map classify) = false) ∧
+    (related .twin (["let", "_", "=", "{", "check", "(", "x", ")", "}", ";"].map classify)
+        (["let", "_", "=", "async", "{", "check", "(", "x", ")", "}", ";"].map classify) = true ∧
+      awaitBalanced (["let", "_", "=", "async", "{", "check", "(", "x", ")", "}", ";"].map classify) = false) ∧
+    (related .twin (["let", "_", "=", "signer", ".", "sign", "(", "tbs", ")", ";"].map classify)
+        (["let", "_", "=", "signer", ".", "sign", "(", "tbs", ")", ";"].map classify) = true ∧
+      awaitBalanced (["let", "_", "=", "signer", ".", "sign", "(", "tbs", ")", ";"].map classify) = false) := by
+  decide +kernel
+
+/-- what `awaitBalanced` demands of an arm that starts with an `_async` call -/
+theorem await_balanced_head (s : String) (r : List Tok) (hs : ¬ s ∈ syncNamedAccessors)
+    (h : callsAwaited (.sfx s :: r) = true) : callAwaited r = true ∧ callsAwaited r = true := by
+  simpa [callsAwaited, hs] using h
+
+/-! ### `twins_equal` at work: `verify_cose` -/
+
+/-- The program `verifyCoseProg` has the sites of `verify_cose` in the regenerated table: the same
+number, order and nesting, and each arm calls exactly the callee pair of the program in the
+flavour of the arm. -/
+theorem verify_cose_matches_table :
+    progMatchesTable verifyCoseCallee ["validate_cose_tst_info", "verify_signature"] verifyCoseProg
+      (Gen.sites.filter (fun s => s.file == "cose_validator.rs" && s.fn == "verify_cose")) = true ∧
+    (Gen.sites.filter (fun s => s.file == "cose_validator.rs" && s.fn == "verify_cose")).all
+      (fun s => s.isTwin && awaitBalanced s.asyncArm) = true ∧
+    isGeneric Gen.functions ("cose_validator.rs", "verify_cose") = true ∧
+    isGeneric Gen.functions ("crypto/cose/sigtst.rs", "validate_cose_tst_info") = true ∧
+    isGeneric Gen.functions ("crypto/cose/verifier.rs", "verify_signature") = true := by
+  decide +kernel
+
+theorem verify_cose_twins : twins verifyCoseProg = true := by decide
+
+/-- **`verify_cose` and `verify_cose_async` compute the same result**: for every meaning of the
+shared steps (verifier choice, `parse_cose_sign1`, the time-stamp override), every state, every
+environment of generic callee bodies with twin sites only (`validate_cose_tst_info`,
+`verify_signature` and everything below them: `all_sites_twins_or_listed`) and agreeing
+primitive callee pairs. -/
+theorem verify_cose_flavours_agree {σ ε : Type} (env : Nat → Option Prog) (I : Interp σ ε)
+    (henv : EnvTwins env) (hleaf : LeafAgree env I) (fuel : Nat) (s : σ) :
+    evalF env I fuel .sync verifyCoseProg s = evalF env I fuel .async verifyCoseProg s :=
+  twins_equal env I henv hleaf verifyCoseProg verify_cose_twins fuel s
+
+/-- What the table protects against: `verify_cose` with an async arm that skips the time-stamp
+validation is not a twin program, does not match the table, and the two flavours differ. -/
+theorem verify_cose_skipping_tst_differs :
+    let bad : Prog := .seq (.prim 0) (.seq (.prim 1) (.seq (.ite 0 (.prim 2) (.site (.leaf 1) .skip)) (.site (.leaf 2) (.leafA 2))))
+    twins bad = false ∧
+    progMatchesTable verifyCoseCallee ["validate_cose_tst_info", "verify_signature"] bad
+      (Gen.sites.filter (fun s => s.file == "cose_validator.rs" && s.fn == "verify_cose")) = false ∧
+    ∃ s : TState, evalF (fun _ => none) { tInterp with async := tInterp.sync } 4 .sync bad s ≠
+      evalF (fun _ => none) { tInterp with async := tInterp.sync } 4 .async bad s := by
+  refine ⟨by decide, by decide +kernel, ⟨{ trace := [], conds := 0, ctr := 0, failAt := none }, ?_⟩⟩
+  simp [evalF, tInterp, tstep, C2pa.C40.ofExcept]
 
 /-- Every `async_signature(..)` differs from the synchronous parameter list only in flavoured
 type names (`Signer`/`AsyncSigner`, `CoseSigner`/`AsyncCoseSigner`, `PostValidator`/…). -/
@@ -180,6 +348,16 @@ theorem sign_claim_settings_disjoint :
     (∀ k, k ∈ Gen.coseSignSettingsReads → k ∉ Gen.adjustedSettingsWrites) ∧
       ¬ "*" ∈ Gen.coseSignSettingsReads ∧ ¬ "*" ∈ Gen.adjustedSettingsWrites := by
   decide +kernel
+
+/-- The two facts combined on the regenerated tables: whatever `cose_sign` computes from the
+settings (any function that reads only the fields `cose_sign` reads in the current source) is
+the same on `adjusted_settings` and on `settings`, whatever values `Store::sign_claim` writes
+into the adjusted fields. -/
+theorem cose_sign_sees_same_settings {α : Type} (f : Settings → α)
+    (hf : ReadsOnly Gen.coseSignSettingsReads f) (v s : Settings) :
+    f (adjust Gen.adjustedSettingsWrites v s) = f s :=
+  settings_projection_safe Gen.coseSignSettingsReads Gen.adjustedSettingsWrites f hf
+    sign_claim_settings_disjoint.1 v s
 
 /-! ### The `flavouredName` site of `Builder::save_to_stream`: `ctx.signer()` / `ctx.async_signer()` -/
 
@@ -217,6 +395,21 @@ example : related .twin (["check", "(", "x", ")", "?", ";", "f", "(", "x", ")"].
   decide +kernel
 example : (Tok.sfx "with_store").text = "with_store_async" ∧ classify "with_store_async" = .sfx "with_store" := by
   decide +kernel
+-- `verify_cose_flavours_agree` is not vacuous: an interpretation whose callee pairs agree, and the
+-- run reaches both sites
+example : LeafAgree (fun _ => none) { tInterp with async := tInterp.sync } := fun _ _ => rfl
+example : EnvTwins (fun _ => none) := fun _ _ h => by cases h
+example : evalF (fun _ => none) { tInterp with async := tInterp.sync } 4 .async verifyCoseProg
+    { trace := [], conds := 0, ctr := 0, failAt := none } =
+    some (.next { trace := ["p0", "p1", "L1", "L2"], conds := 0, ctr := 0, failAt := none }) := by
+  simp [verifyCoseProg, evalF, tInterp, tstep, C2pa.C40.ofExcept]
+  decide
+example : awaitBalanced (["Box", ":", ":", "pin", "(", "f_async", "(", "g", "(", "x", ")", ")", ")", ".", "await", "?"].map classify) = true := by
+  decide +kernel
+example : awaitBalanced (["ctx", ".", "resolver_async", "(", ")", ".", "http_resolve_async", "(", "r", ")", ".", "await"].map classify) = true := by
+  decide +kernel
+example : ReadsOnly Gen.coseSignSettingsReads (fun s : Settings => s "trust.trust_config" + 1) := by
+  intro s t h; simp [h "trust.trust_config" (by decide)]
 example : ReadsOnly ["a"] (fun s : Settings => s "a" + 1) := by
   intro s t h; simp [h "a" (by simp)]
 
